@@ -313,7 +313,7 @@ impl Property for MultiProp {
     }
     fn rule(&self) -> String {
         match self.id {
-            "C08" => "1-6 cumulative tasks (interval/sparse/negative starts, about half of them with at most two start times, views, durations 0-5, usages 0-3, capacity 0-4) + 0-2 side constraints, iterated under several of the 144 CumulativeOptions combinations (quick: 8 per case, rotating so that every combination is used; thorough: all 144) and compared with the definitional solution set. Non-trivial: >=2 tasks with positive duration and usage, reference set neither empty nor the full product, >=1 conflict; distinct by model hash.".into(),
+            "C08" => "at least one cumulative constraint: 1-6 cumulative tasks (interval/sparse/negative starts, about half of them with at most two start times, views, durations 0-5, usages 0-3, capacity 0-4) + 0-2 side constraints, iterated under several of the 144 CumulativeOptions combinations (quick: 8 per case, rotating so that every combination is used; thorough: all 144, fewer - at least 8 - for models with more than 700 solutions so that a case stays below about 100 000 iterated solutions) and compared with the definitional solution set. Non-trivial: >=2 tasks with positive duration and usage, reference set neither empty nor the full product, >=1 conflict; distinct by model hash.".into(),
             "C09" => "1-3 constraints of every kind, 30% each posted half-reified / reified / negated with free or pre-fixed literals, iterated under 2 configurations and compared with the reference set defined by implication / equivalence / complement semantics. Non-trivial: a reified constraint whose literal takes both values in the reference set and which is neither valid nor unsatisfiable over the domains; distinct by model hash.".into(),
             _ => "one generated model x K configurations (always: default, NoLearning, restart after every conflict, delete all learned nogoods with both sortings, no minimisation, restart after every conflict under a generated composite brancher; plus generated ones): each configuration's iterated solution set and optimum must equal the exhaustive reference. Non-trivial: >=2 configurations had >=3 conflicts; distinct by model hash.".into(),
         }
@@ -334,7 +334,13 @@ impl Property for MultiProp {
             any::<bool>(),
         )
             .prop_map(move |((rv, rc), rcfgs, rot, obj, maximise)| {
-                let model = build_model(&pp, &rv, &rc);
+                let mut model = build_model(&pp, &rv, &rc);
+                if id == "C08" && !model.cons.iter().any(|p| matches!(p.cons, Cons::Cumulative { .. })) {
+                    // every C08 model has a cumulative constraint: the same entropy, cumulative constraints only
+                    let mut only_cum = pp.clone();
+                    only_cum.kinds = vec![(K::Cumulative, 1)];
+                    model = build_model(&only_cum, &rv, &rc);
+                }
                 let mut cfgs: Vec<Config> = rcfgs.iter().map(build_config).collect();
                 let mut cum_opts = vec![];
                 let mut objective = None;
@@ -407,7 +413,17 @@ impl Property for MultiProp {
         let mut total_conflicts = 0;
         let mut any_exhausted = false;
         let variants: Vec<(String, Model, &Config)> = if self.id == "C08" {
-            case.cum_opts.iter().map(|i| (format!("options #{} {:?}", i, CumOpts::from_index(*i)), with_cum_opts(m, *i), &case.cfgs[0])).collect()
+            // the option sets only matter when there is a cumulative constraint; and the work of one case is
+            // bounded (about 100 000 iterated solutions) so that a model with thousands of solutions under
+            // all 144 option sets does not run into the watchdog: the rotation still visits every option set
+            let has_cumulative = m.cons.iter().any(|p| matches!(p.cons, Cons::Cumulative { .. }));
+            let keep = if has_cumulative { (100_000 / sols.len().max(1)).max(8) } else { 1 };
+            if !has_cumulative {
+                out.classes.push("no_cumulative".into());
+            } else if keep < case.cum_opts.len() {
+                out.classes.push("options_truncated".into());
+            }
+            case.cum_opts.iter().take(keep).map(|i| (format!("options #{} {:?}", i, CumOpts::from_index(*i)), with_cum_opts(m, *i), &case.cfgs[0])).collect()
         } else {
             case.cfgs.iter().enumerate().map(|(i, c)| (format!("configuration #{}", i), m.clone(), c)).collect()
         };
